@@ -1,5 +1,6 @@
 import FlVerif.Op.Fld
 import FlVerif.Lemmas.CodeFld
+import FlVerif.Lemmas.CodeFunEvalFld
 
 /-! # C18 — FuzzyLite Dataset export is a faithful tabulation of the engine (grid part)
 
@@ -353,5 +354,23 @@ theorem code_grid (vars : List Py.Fld.Var) (values : Nat) (allVariables : Bool) 
         σ.max_values.map Int.toNat = mx ∧
         σ.input_values = (grid mx).map (rowOf vars σ.resolution) :=
   Op.Fld.code_grid_of increment_lex_succ rank_lt correctedRoot_eq vars values allVariables guess
+
+/-- **Tie A.**  `Gen.Code.write_from_reader` is regenerated from the source of `FldExporter.write_from_reader`
+    (`lines` = `reader.readlines()`, `parseRow` = the floats of a kept line, any function that may raise; the export
+    `self.write` is outside).  The rows it collects are the lines `Op.Fld.readerRows` keeps – the first `skip` lines,
+    blank lines and `#` lines dropped, the others stripped (`reader_filter`) – parsed in order; the first line that
+    does not parse raises its exception. -/
+theorem code_readerRows (lines : List String) (skip : Nat) (parseRow : String → Py.M (List (X Rat))) :
+    match (readerRows skip lines).mapM parseRow with
+    | .error e => Gen.Code.write_from_reader.run lines skip parseRow {} = .error e
+    | .ok rows => ∃ σ, Gen.Code.write_from_reader.run lines skip parseRow {} = .ok σ ∧ σ.input_values = rows :=
+  Op.Fld.code_readerRows lines skip parseRow
+
+/-- **Tie A.**  `Gen.Code.FldExporter_header` is regenerated from the source of `FldExporter.header` (variables are
+    represented by their names): the names `Op.Fld.header` selects, joined by the separator. -/
+theorem code_header (inputs outputs : List String) (inputValues outputValues : Bool) (sep : String) :
+    ∃ σ, Gen.Code.FldExporter_header.run inputs outputs inputValues outputValues sep {} = .ok σ ∧
+      σ.ret = some (sep.intercalate (header inputs outputs inputValues outputValues)) :=
+  Op.Fld.code_header inputs outputs inputValues outputValues sep
 
 end C18
